@@ -17,7 +17,7 @@ from pyutil import rel
 from consteval import Ev, Unknown, Raised
 import exprnf as X
 from exprnf import C, V
-from cfront import TU, kids, kind, strip, walk, ctext, CLower
+from cfront import TU, kids, kind, strip, walk, ctext, CLower, fold_env, wrap_int
 
 EXPLANATION = (
     "Forward substitution (no execution) of gsm_fn2gsmtime / gsm_gsmtime2fn (bundled libosmocore), l1s_time_inc "
@@ -35,11 +35,20 @@ EXPLANATION = (
     "x div (a*b), m*(x div (m*b)) + (x div b) mod m == x div b (a decomposition from the position inside the superframe); the "
     "dividend intervals are intersected with the interval of the expression's normal form (fn - (fn / c) * c is in 0..c-1). A "
     "component whose normal form still differs from its specification term is folded, together with that term, for each of the "
-    "2715648 frame numbers: only a frame number on which they differ is a violation (reported with it).")
+    "2715648 frame numbers: only a frame number on which they differ is a violation (reported with it). The same holds for the "
+    "other two functions: a recomposition that is not in the recognised normal form (or has a C dividend the intervals do not prove "
+    "non-negative, dividends of value-only helpers included) is folded in C integer semantics by the checker's own evaluator for every "
+    "(T2, T3) pair of 0..25 x 0..50 (complete once T1 is shown to enter only as 1326*T1); an incremental update that is not in the "
+    "recognised carry-chain shape is decided on its terms under the entry invariant -- fields replaced by the decomposition of fn, the "
+    "effect of gsm_fn2gsmtime by the decomposition of its argument -- against the decomposition of (fn + delta) mod 2715648: each of the "
+    "2715648 frame numbers for delta == 1, frame numbers around every carry point for the other deltas of the property; the moduli / "
+    "carry-table obligations are then recorded as an open structural proof. Every value stored into a field of the running time fits "
+    "the field (bit-field widths included), so the mathematical terms are what the C code computes.")
 ASSUMPTIONS = [
     "arithmetic consequences of the verified formulas (round trip for each of the 2715648 frame numbers, agreement of the "
     "incremental and the recomputed time at every carry point) follow by the Chinese remainder argument from the checked "
-    "moduli / carry conditions / gcd(26,51) == 1 and are not enumerated",
+    "moduli / carry conditions / gcd(26,51) == 1 and are not enumerated while the code has the recognised shape; an update in another "
+    "shape is folded (delta == 1 completely, the other deltas on boundary witnesses: structural proof open in the evidence)",
     "inductive hypothesis of l1s_time_inc: on entry fn < 2715648, t1 < 2048, t2 < 26, t3 < 51, tc < 8 and delta_fn <= 2715648 "
     "(ADD_MODULO performs one conditional subtraction, a full reduction only for delta <= modulus)",
     "struct gsm_time is reached through one pointer only (no aliasing of its fields inside the analysed functions)",
@@ -957,6 +966,8 @@ class _CL(CLower):
             return ctext(n)
         if kind(n) == "MemberExpr" and kind(strip(kids(n)[0])) == "DeclRefExpr":
             return ctext(n)
+        if kind(n) == "UnaryOperator" and n.get("opcode") == "*" and kind(strip(kids(n)[0])) == "DeclRefExpr":
+            return ctext(n)         # `*out = v` through one of the function's own (never re-pointed) pointers
         raise AnalysisError("forward substitution (C): store through `%s` is outside the vocabulary" % ctext(n)[:60])
 
     def lower(self, n):
@@ -966,6 +977,7 @@ class _CL(CLower):
             ks = kids(m)
             v = self.lower(ks[1])
             self.env[self._lvalue(ks[0])] = v
+            self.sym.stores.append((tuple(self.sym.path), self._lvalue(ks[0]), v))
             return v
         if k == "CompoundAssignOperator":
             ks = kids(m)
@@ -975,12 +987,14 @@ class _CL(CLower):
             cur = self.lower(ks[0])
             v = f(cur, self.lower(ks[1]))
             self.env[self._lvalue(ks[0])] = v
+            self.sym.stores.append((tuple(self.sym.path), self._lvalue(ks[0]), v))
             return v
         if k == "UnaryOperator" and m.get("opcode") in ("++", "--"):
             ks = kids(m)
             cur = self.lower(ks[0])
             v = X.add(cur, C(1 if m.get("opcode") == "++" else -1))
             self.env[self._lvalue(ks[0])] = v
+            self.sym.stores.append((tuple(self.sym.path), self._lvalue(ks[0]), v))
             return cur if m.get("isPostfix") else v
         if k == "CallExpr":
             return self.sym.call(m, self)
@@ -996,6 +1010,7 @@ class CSym:
         self.opaque = set(opaque)
         self.depth = 0
         self.effects = []      # (path, callee, args)
+        self.stores = []       # (path, lvalue text, stored term) of every assignment, in program order
         self.path = []
         self.opaque_calls = set()
 
@@ -1121,12 +1136,18 @@ class CSym:
                     if t[1].startswith(q + "->"):
                         return V(p + t[1][len(q):])
             return None
-        ne, npth = len(self.effects), len(self.path)
+        ne, npth, nst = len(self.effects), len(self.path), len(self.stores)
         self.depth += 1
         try:
             out = self.block([self.tu.body(f)], init)
         finally:
             self.depth -= 1
+        for i in range(nst, len(self.stores)):
+            pth, key, val = self.stores[i]
+            root = re.split(r"->|\.|\[", key, 1)[0]
+            if root in bind:
+                key = bind[root] + key[len(root):]
+            self.stores[i] = (pth[:npth] + tuple((renorm(c, ren), pol) for c, pol in pth[npth:]), key, renorm(val, ren))
         for i in range(ne, len(self.effects)):
             pth, cal, eargs = self.effects[i]
             pth = pth[:npth] + tuple((renorm(c, ren), pol) for c, pol in pth[npth:])
@@ -1267,6 +1288,230 @@ class CSym:
         if o[0] == "br":
             return ("br", o[1], self._cont_plain(o[2], rest), self._cont_plain(o[3], rest))
         return o
+
+
+# ------------------------------------------------------------------------------
+# constant folding of C code on concrete values (C integer semantics; shared with C07)
+
+class _Flow(Exception):
+    def __init__(self, what, value=None):
+        Exception.__init__(self, what)
+        self.what, self.value = what, value
+
+
+class CFold:
+    """Constant folder for a value-only C helper (integer parameters, own
+    locals only, no memory, no calls out of the TU): the checker's own
+    evaluator over the clang AST, used to fold the 2^NBIN mask helper for
+    each N of the finite domain when it is written with a loop.  Built on
+    cfront.fold_env for side-effect-free expressions."""
+    LIMIT = 20000
+
+    def __init__(self, tu, sym):
+        self.tu, self.sym = tu, sym
+        self.steps = 0
+
+    def call(self, name, args):
+        f = self.tu.functions.get(name)
+        if f is None or not any(kind(c) == "CompoundStmt" for c in kids(f)) or not self.sym.value_only(f):
+            return None
+        ps = self.tu.fparams(f)
+        if len(ps) != len(args):
+            return None
+        env = {p.get("name"): wrap_int(a, p.get("type", {}).get("qualType", "")) for p, a in zip(ps, args)}
+        try:
+            self.stmt(self.tu.body(f), env)
+        except _Flow as e:
+            return e.value if e.what == "return" else None
+        return None
+
+    @staticmethod
+    def _effect(n):
+        return any(kind(x) in ("CompoundAssignOperator", "CallExpr") or
+                   (kind(x) == "BinaryOperator" and x.get("opcode") in ("=", ",")) or
+                   (kind(x) == "UnaryOperator" and x.get("opcode") in ("++", "--")) for x in walk(n))
+
+    def _store(self, lhs, v, env):
+        t = strip(lhs)
+        if kind(t) != "DeclRefExpr" or v is None:
+            raise _Flow("unknown")
+        env[ctext(t)] = wrap_int(v, t.get("type", {}).get("qualType", ""))
+        return env[ctext(t)]
+
+    @staticmethod
+    def _binop(op, a, b):
+        """one C binary operator on two known integers (division and remainder truncate toward zero); None when the
+        operator is unknown or undefined for the operands"""
+        if op in ("/", "%"):
+            if b == 0:
+                return None
+            q = abs(a) // abs(b)
+            if (a < 0) != (b < 0):
+                q = -q
+            return q if op == "/" else a - b * q
+        if op in ("<<", ">>"):
+            if not 0 <= b < 64:
+                return None
+            return a << b if op == "<<" else a >> b
+        f = {"+": lambda: a + b, "-": lambda: a - b, "*": lambda: a * b, "&": lambda: a & b, "|": lambda: a | b,
+             "^": lambda: a ^ b, "<": lambda: int(a < b), ">": lambda: int(a > b), "<=": lambda: int(a <= b),
+             ">=": lambda: int(a >= b), "==": lambda: int(a == b), "!=": lambda: int(a != b)}.get(op)
+        return None if f is None else f()
+
+    def expr(self, n, env):
+        m = strip(n)
+        eff = self._effect(m)
+        if not eff:
+            v = fold_env(self.tu, m, env)
+            if v is not None:
+                return v
+            # fold_env evaluates every operator of its table eagerly (a comparison with a negative constant dies in
+            # the shift entry): operators are folded here one by one on the folded operands
+            k, ks = kind(m), kids(m)
+            op = m.get("opcode")
+            if k == "BinaryOperator" and op in ("&&", "||"):
+                a = self.expr(ks[0], env)
+                if a is None:
+                    return None
+                if bool(a) == (op == "||"):
+                    return int(bool(a))
+                b = self.expr(ks[1], env)
+                return None if b is None else int(bool(b))
+            if k == "BinaryOperator":
+                a, b = self.expr(ks[0], env), self.expr(ks[1], env)
+                return None if a is None or b is None else self._binop(op, a, b)
+            if k == "UnaryOperator" and op in ("-", "+", "~", "!"):
+                a = self.expr(ks[0], env)
+                return None if a is None else {"-": -a, "+": a, "~": ~a, "!": int(not a)}[op]
+            if k == "CStyleCastExpr":
+                a = self.expr(ks[0], env)
+                return None if a is None else wrap_int(a, m.get("type", {}).get("qualType", ""))
+            if k == "ConditionalOperator":
+                c = self.expr(ks[0], env)
+                return None if c is None else self.expr(ks[1] if c else ks[2], env)
+            return None
+        k, ks = kind(m), kids(m)
+        if k == "BinaryOperator" and m.get("opcode") == "=":
+            return self._store(ks[0], self.expr(ks[1], env), env)
+        if k == "BinaryOperator" and m.get("opcode") == ",":
+            self.expr(ks[0], env)
+            return self.expr(ks[1], env)
+        if k == "CompoundAssignOperator":
+            a, b = self.expr(ks[0], env), self.expr(ks[1], env)
+            if a is None or b is None:
+                raise _Flow("unknown")
+            op = m.get("opcode")[:-1]
+            try:
+                v = {"+": a + b, "-": a - b, "*": a * b, "&": a & b, "|": a | b, "^": a ^ b,
+                     "<<": a << b if 0 <= b < 64 else None, ">>": a >> b if 0 <= b < 64 else None,
+                     "/": int(a / b) if b else None, "%": (a - b * int(a / b)) if b else None}.get(op)
+            except (ValueError, OverflowError):
+                v = None
+            return self._store(ks[0], v, env)
+        if k == "UnaryOperator" and m.get("opcode") in ("++", "--"):
+            a = self.expr(ks[0], env)
+            if a is None:
+                raise _Flow("unknown")
+            v = self._store(ks[0], a + (1 if m.get("opcode") == "++" else -1), env)
+            return a if m.get("isPostfix") else v
+        if k == "CallExpr":
+            args = [self.expr(a, env) for a in ks[1:]]
+            return None if any(a is None for a in args) else self.call(ctext(ks[0]), args)
+        if k == "BinaryOperator" and m.get("opcode") in ("&&", "||"):
+            a = self.expr(ks[0], env)
+            if a is None:
+                return None
+            if bool(a) == (m.get("opcode") == "||"):
+                return int(bool(a))
+            b = self.expr(ks[1], env)
+            return None if b is None else int(bool(b))
+        if k == "ConditionalOperator":
+            c = self.expr(ks[0], env)
+            return None if c is None else self.expr(ks[1] if c else ks[2], env)
+        # operator over operands with effects: evaluate the operands in order, then fold the operator
+        vals = {}
+        for c in ks:
+            if self._effect(c):
+                v = self.expr(c, env)
+                if v is None:
+                    return None
+                vals[ctext(c)] = v
+        env2 = dict(env)
+        env2.update(vals)
+        return fold_env(self.tu, m, env2)
+
+    def _tick(self):
+        self.steps += 1
+        if self.steps > self.LIMIT:
+            raise _Flow("unknown")
+
+    def stmt(self, st, env):
+        if not st:
+            return
+        k = kind(st)
+        ks = kids(st)
+        if k == "CompoundStmt":
+            for c in ks:
+                self.stmt(c, env)
+        elif k == "NullStmt":
+            pass
+        elif k == "DeclStmt":
+            for d in ks:
+                if kind(d) == "VarDecl":
+                    if d.get("init") and kids(d):
+                        v = self.expr(kids(d)[-1], env)
+                        env[d.get("name")] = None if v is None else wrap_int(v, d.get("type", {}).get("qualType", ""))
+                    else:
+                        env.pop(d.get("name"), None)
+        elif k == "ReturnStmt":
+            raise _Flow("return", self.expr(ks[0], env) if ks else None)
+        elif k == "BreakStmt":
+            raise _Flow("break")
+        elif k == "ContinueStmt":
+            raise _Flow("continue")
+        elif k == "IfStmt":
+            inner = list(st.get("inner", []))
+            has_else = st.get("hasElse", False)
+            if len(inner) != (3 if has_else else 2):
+                raise _Flow("unknown")
+            c = self.expr(inner[0], env)
+            if c is None:
+                raise _Flow("unknown")
+            if c:
+                self.stmt(inner[1], env)
+            elif has_else:
+                self.stmt(inner[2], env)
+        elif k in ("ForStmt", "WhileStmt", "DoStmt"):
+            if k == "ForStmt":
+                init, cond, inc, body = st["inner"][0], st["inner"][2], st["inner"][3], st["inner"][4]
+            elif k == "WhileStmt":
+                init, cond, inc, body = None, st["inner"][-2], None, st["inner"][-1]
+            else:
+                init, cond, inc, body = None, st["inner"][1], None, st["inner"][0]
+            if init:
+                self.stmt(init, env) if kind(init) == "DeclStmt" else self.expr(init, env)
+            first = True
+            while True:
+                self._tick()
+                if not (k == "DoStmt" and first) and cond:
+                    c = self.expr(cond, env)
+                    if c is None:
+                        raise _Flow("unknown")
+                    if not c:
+                        break
+                first = False
+                try:
+                    self.stmt(body, env)
+                except _Flow as e:
+                    if e.what == "break":
+                        break
+                    if e.what != "continue":
+                        raise
+                if inc:
+                    self.expr(inc, env)
+        else:
+            if self.expr(st, env) is None and not self._effect(st):
+                raise _Flow("unknown")
 
 
 # raw (un-normalised) interval of a C expression in its own type -- used where
@@ -1586,7 +1831,109 @@ def r1_decomposition(L, repo, rule="C19.R1", hopping_only=False):
 # ------------------------------------------------------------------------------
 # R2 recomposition
 
+RECOMP_T1 = (0, 1, 1023, 2047)
+
+
+def dividend_sites(tu, f, rng, depth=0, via=None):
+    """(function name, `/` or `%` node, raw interval of its dividend) for every division / remainder that evaluating f
+    can reach: its own body and -- with the parameter ranges taken from the arguments at the call site -- the bodies
+    of value-only helpers of the same file it calls (an extracted `mod 26` helper)."""
+    loc = single_def_locals(tu, f)
+    for n in walk(tu.body(f)):
+        if kind(n) == "BinaryOperator" and n.get("opcode") in ("/", "%"):
+            yield (via or f.get("name"), n, craw(tu, kids(n)[0], rng, loc))
+        elif kind(n) == "CallExpr" and depth < 3:
+            g = tu.functions.get(ctext(kids(n)[0]))
+            if g is None or g is f or not any(kind(c) == "CompoundStmt" for c in kids(g)):
+                continue
+            ps = tu.fparams(g)
+            args = kids(n)[1:]
+            sub = {}
+            if len(ps) == len(args):
+                for p, a in zip(ps, args):
+                    iv = craw(tu, a, rng, loc)
+                    if iv is not None and not isinstance(iv, Wrap):
+                        sub[p.get("name")] = iv
+            for x in dividend_sites(tu, g, sub, depth + 1, g.get("name")):
+                yield x
+
+
+def fold_recomposition(tu, f, p, sym, t1s=RECOMP_T1, limit=3):
+    """gsm_gsmtime2fn folded in C integer semantics (CFold: the checker's own evaluator over the clang AST, value-only
+    helpers included) for every (T2, T3) pair of 0..25 x 0..50 -- each of them is the (T2, T3) of some frame number,
+    gcd(26, 51) == 1 -- and T1 in t1s, on the consistent time of the frame number FN = 51*((T3 - T2) mod 26) +
+    T3 + 1326*T1; the value returned must be FN.  (points folded, [text of differing points]); AnalysisError when the
+    function leaves the evaluator's vocabulary."""
+    cf = CFold(tu, sym)
+    body = tu.body(f)
+    rt = f.get("type", {}).get("qualType", "").split("(")[0].strip()
+    k, bad = 0, []
+    for t1 in t1s:
+        for t2 in range(26):
+            for t3 in range(51):
+                fn = 51 * ((t3 - t2) % 26) + t3 + 1326 * t1
+                env = {"%s->fn" % p: fn, "%s->t1" % p: t1, "%s->t2" % p: t2, "%s->t3" % p: t3, "%s->tc" % p: (fn // 51) % 8}
+                cf.steps = 0
+                got = None
+                try:
+                    cf.stmt(body, env)
+                except _Flow as e:
+                    if e.what == "return" and e.value is not None:
+                        got = wrap_int(e.value, rt)
+                except (ArithmeticError, ValueError, TypeError, KeyError, RecursionError):
+                    got = None
+                if got is None:
+                    raise AnalysisError("gsm_gsmtime2fn cannot be folded for T1 = %d, T2 = %d, T3 = %d (outside the evaluator's "
+                                        "vocabulary)" % (t1, t2, t3))
+                k += 1
+                if got != fn:
+                    bad.append("T1 = %d, T2 = %d, T3 = %d (FN = %d): %d returned" % (t1, t2, t3, fn, got))
+                    if len(bad) >= limit:
+                        return k, bad
+    return k, bad
+
+
+def fold_recomposition_term(got, want, t1s=RECOMP_T1, limit=3):
+    """the same comparison on the forward-substituted term (floor semantics: valid once every dividend is proven
+    non-negative), for every (T2, T3) pair and T1 in t1s"""
+    names = {V("T1"): "a", V("T2"): "b", V("T3"): "c"}
+    f = term_fn(("tuple", got, want), names, ["a", "b", "c"])
+    k, bad = 0, []
+    for t1 in t1s:
+        for t2 in range(26):
+            for t3 in range(51):
+                try:
+                    a, b = f(t1, t2, t3)
+                except (ArithmeticError, _Outside, TypeError, ValueError) as e:
+                    raise AnalysisError("the recomposed term cannot be folded: %s" % e)
+                k += 1
+                if a != b:
+                    bad.append("T1 = %d, T2 = %d, T3 = %d (FN = %d): %s computed" % (t1, t2, t3, b, a))
+                    if len(bad) >= limit:
+                        return k, bad
+    return k, bad
+
+
+def linear_in_t1(got):
+    """T1 enters the recomposed term only as the summand 1326*T1 (then the fold over every (T2, T3) pair with a few T1
+    is complete for every T1)"""
+    T1 = V("T1")
+
+    def rec(t):
+        if t[0] == "ite":
+            return T1 not in set(subterms(t[1])) and rec(t[2]) and rec(t[3])
+        rest = renorm(X.sub(t, X.mul(C(26 * 51), T1)))
+        return T1 not in set(subterms(rest))
+    return rec(got)
+
+
 def r2_recomposition(L, tu):
+    """R2.  Structural decision (closes the clause for every time): the returned term is 51*((T3 - T2) mod 26) + T3 +
+    1326*T1 in normal form and every C dividend is proven non-negative by intervals (so C's truncating % is the
+    mathematical mod).  A recomposition written in another shape (conditional add / subtract instead of a remainder, a
+    helper, a defensive fallback arm) decides nothing by its shape: the function is then folded in C semantics for
+    every (T2, T3) pair of the finite domain -- a time on which another frame number is returned is the violation
+    (reported with it); agreement is recorded and the structural clause stays open without an alarm."""
     rule = "C19.R2"
     fname = "gsm_gsmtime2fn"
     f = tu.func(fname)
@@ -1606,24 +1953,65 @@ def r2_recomposition(L, tu):
     T1, T2, T3 = V("T1"), V("T2"), V("T3")
     want = X.add(X.mul(C(51), X.mod(X.sub(T3, T2), C(26))), T3, X.mul(C(26 * 51), T1))
     d = diff(got, want)
-    L.ob(rule, F_UTILS, fname, "FN = 51*((T3 - T2) mod 26) + T3 + 1326*T1 (TS 45.002 4.3.3), modulo the bias rule (x + 26) mod 26 == x mod 26",
-         show(want), show(got) if not d else "%s -- differs in %s (specification: %s)" % (
-             show(got), "; ".join(show(a) for a, b in d), "; ".join(show(b) for a, b in d)), not d, tu.line(f))
+    key = "FN = 51*((T3 - T2) mod 26) + T3 + 1326*T1 (TS 45.002 4.3.3), modulo the bias rule (x + 26) mod 26 == x mod 26"
+    differs = "%s -- differs in %s (specification: %s)" % (
+        show(got), "; ".join(show(a) for a, b in d), "; ".join(show(b) for a, b in d)) if d else show(got)
     # the bias: C's % truncates toward zero, so every dividend must be provably >= 0 in a signed type wide enough
     rng = {"%s->t1" % p: (0, 2047), "%s->t2" % p: (0, 25), "%s->t3" % p: (0, 50), "%s->tc" % p: (0, 7),
            "%s->fn" % p: (0, HYPERFRAME - 1)}
-    nrem = 0
+    sites = list(dividend_sites(tu, f, rng))
+
+    def dkey(where, n):
+        return ("C `%s`: dividend `%s` is non-negative for t3 <= 50, t2 <= 25 after integer promotion (C remainder truncates toward "
+                "zero; the +26 bias is what makes (T3 - T2) mod 26 a true modulo)" % (n.get("opcode"), ctext(kids(n)[0])))
+
+    def dividends():
+        for where, n, iv in sites:
+            dividend_ob(L, rule, F_UTILS, where, tu, kids(n)[0], dkey(where, n), ">= 0, no wrap-around", iv)
+    div_ok = all(iv is not None and not isinstance(iv, Wrap) and iv[0] >= 0 for _, _, iv in sites)
+    line = tu.line(f)
+    if not d and div_ok:
+        L.ob(rule, F_UTILS, fname, key, show(want), show(got), True, line)
+        dividends()
+    else:
+        # not in the recognised shape: decided by folding the function itself over the finite domain
+        closed = linear_in_t1(got)
+        t1s = (0, 2047) if closed else RECOMP_T1
+        try:
+            k, bad = fold_recomposition(tu, f, p, sym, t1s)
+            how = "folded in C integer semantics"
+        except AnalysisError as e:
+            if not div_ok:
+                # neither proven by intervals nor foldable: the interval verdict stands (a dividend that is negative
+                # for some time of the box; an expression that cannot be bounded gives no verdict)
+                L.ob(rule, F_UTILS, fname, key, show(want), differs, not d, line)
+                dividends()
+                raise
+            k, bad = fold_recomposition_term(got, want, t1s)
+            how = "the forward-substituted term folded (%s)" % e
+        scope = "every (T2, T3) pair of 0..25 x 0..50 and T1 in %s%s" % (
+            list(t1s), " (T1 enters only as the summand 1326*T1: complete)" if closed else "")
+        if bad:
+            L.ob(rule, F_UTILS, fname, key, show(want), "e.g. %s -- %s" % (bad[0], differs), False, line)
+            for where, n, iv in sites:
+                if iv is not None and (isinstance(iv, Wrap) or iv[0] < 0):
+                    dividend_ob(L, rule, F_UTILS, where, tu, kids(n)[0], dkey(where, n), ">= 0, no wrap-around", iv)
+        else:
+            L.ob(rule, F_UTILS, fname, key, show(want),
+                 "%s -- returns the frame number of the time on all %d points: %s; %s (not in the recognised shape: structural "
+                 "proof open)" % (show(got)[:300], k, scope, how), True, line)
+            L.extra.setdefault("decided_by_enumeration", []).append(
+                "gsm_gsmtime2fn: the frame number is returned for %s (%d points, %s)" % (scope, k, how))
+
+            def structural():
+                L.ob(rule, F_UTILS, fname, key, show(want), differs, not d, line)
+                dividends()
+            L.structural("C19.R2 gsm_gsmtime2fn: normal form of the returned term and non-negative C dividends", structural)
+    # anchor: the recomposition reads the three components it is built from (how many remainders it needs is the
+    # author's choice)
+    comps = sorted(v[1] for v in set(subterms(got)) if v in (T1, T2, T3))
+    L.floor(rule, "time components read by gsm_gsmtime2fn", len(comps), 3)
     loc = single_def_locals(tu, f)
-    for n in walk(tu.body(f)):
-        if kind(n) == "BinaryOperator" and n.get("opcode") in ("%", "/"):
-            nrem += 1
-            iv = craw(tu, kids(n)[0], rng, loc)
-            dividend_ob(L, rule, F_UTILS, fname, tu, kids(n)[0],
-                        "C `%s`: dividend `%s` is non-negative for t3 <= 50, t2 <= 25 after integer promotion (C remainder truncates toward "
-                        "zero; the +26 bias is what makes (T3 - T2) mod 26 a true modulo)" % (n.get("opcode"), ctext(kids(n)[0])),
-                        ">= 0, no wrap-around", iv)
-    L.floor(rule, "remainder operations in gsm_gsmtime2fn", nrem, 1)
-    whole = None
     for n in walk(tu.body(f)):
         if kind(n) == "ReturnStmt" and kids(n):
             whole = craw(tu, kids(n)[0], rng, loc)
@@ -1638,17 +2026,84 @@ def r2_recomposition(L, tu):
 # ------------------------------------------------------------------------------
 # R3 incremental carry logic
 
+def narrow(rng, c, pol):
+    """the box `rng` under condition c taken with polarity pol (comparisons of a symbol with a constant refine it)"""
+    return {var: refine(c, pol, var, iv) for var, iv in rng.items()}
+
+
 def red_to_mod(t, rng, log):
-    """('red', S, m) -> S mod m where S is provably in [0, 2m-1]"""
-    def leaf(x):
-        if x[0] == "red":
-            S, m = red_to_mod(x[1], rng, log), red_to_mod(x[2], rng, log)
+    """('red', S, m) -> S mod m where S is provably in [0, 2m-1]; the interval of S is taken under the conditions of
+    the conditionals that enclose the reduction (`if (delta < 26) ADD_MODULO(t2, delta, 26)`)"""
+    def go(x, rng):
+        k = x[0]
+        if k in ("c", "v"):
+            return x
+        if k == "ite":
+            c = go(x[1], rng)
+            return ite_(c, go(x[2], narrow(rng, c, True)), go(x[3], narrow(rng, c, False)))
+        if k == "red":
+            S, m = go(x[1], rng), go(x[2], rng)
             iv = interval(S, rng)
             ok = m[0] == "c" and m[1] > 0 and iv[0] >= 0 and iv[1] <= 2 * m[1] - 1
             log.append((S, m, iv, ok))
             return X.mod(S, m) if ok else ("red", S, m)
-        return None
-    return renorm(t, leaf)
+        return build((k,) + tuple(go(y, rng) if isinstance(y, tuple) else y for y in x[1:]))
+    return go(t, rng)
+
+
+def field_ranges(tu, rec):
+    """field name -> (lo, hi) a member of struct `rec` can hold (bit-fields by their width)"""
+    r = tu.records.get(rec)
+    out = {}
+    for c in (kids(r) if r is not None else []):
+        if kind(c) != "FieldDecl":
+            continue
+        ty = c.get("type", {})
+        base = _CINT.get((ty.get("qualType") or "").replace("const ", "").strip()) or _CINT.get(ty.get("desugaredQualType") or "")
+        if base is None:
+            continue
+        if c.get("isBitfield"):
+            w = tu.fold(kids(c)[0]) if kids(c) else None
+            if w is None:
+                continue
+            base = (0, (1 << w) - 1) if base[0] == 0 else (-(1 << (w - 1)), (1 << (w - 1)) - 1)
+        out[c.get("name")] = base
+    return out
+
+
+def stores_fit(L, rule, tu, fname, sym, tp, rng, line):
+    """every value l1s_time_inc stores into a field of the time (intermediate values of ADD_MODULO included) fits the
+    field: the forward-substituted terms are exact only then.  Interval of the stored term under its path conditions;
+    an interval that leaves the field is a violation only with a concrete time / delta of the entry invariant that
+    takes the path and stores such a value (corners of the box)."""
+    ptype = [p for p in tu.fparams(tu.func(fname)) if p.get("name") == tp][0].get("type", {}).get("qualType", "")
+    caps = field_ranges(tu, ptype.replace("const", "").replace("struct", "").replace("*", "").strip())
+    n = 0
+    for path, key, val in sym.stores:
+        if not key.startswith(tp + "->") or key[len(tp) + 2:] not in caps:
+            continue
+        n += 1
+        fldname = key[len(tp) + 2:]
+        cap = caps[fldname]
+        box = dict(rng)
+        for c, pol in path:
+            box = narrow(box, c, pol)
+        iv = interval(val, box)
+        if iv[0] >= cap[0] and iv[1] <= cap[1]:
+            continue
+        vs = sorted({x for t in [val] + [c for c, _ in path] for x in subterms(t) if x in box and box[x][0] <= box[x][1]}, key=repr)
+        if len(vs) > 6:
+            continue
+        for corner in range(1 << len(vs)):
+            env = {v: box[v][corner >> i & 1] for i, v in enumerate(vs)}
+            if any(evalnum(c, env) != int(pol) for c, pol in path):
+                continue
+            got = evalnum(val, env)
+            if isinstance(got, int) and not cap[0] <= got <= cap[1]:
+                L.ob(rule, F_SYNC, fname, "values stored in %s fit the field" % key, ivtxt(cap),
+                     "%d stored for %s" % (got, ", ".join("%s = %d" % (show(v), env[v]) for v in vs)), False, line)
+                break
+    return n
 
 
 def find_modulus(t, base):
@@ -1680,21 +2135,7 @@ def r3_increment(L, repo, mods):
     log = []
     final = {x: red_to_mod(sym.final(out, "%s->%s" % (tp, x)), rng, log) for x in ("fn", "t1", "t2", "t3", "tc")}
     line = tu.line(f)
-    seen = []
-    for (S, m, iv, ok) in log:
-        if (S, m) in seen:
-            continue
-        seen.append((S, m))
-        L.ob(rule, F_SYNC, fname,
-             "ADD_MODULO: `x += d; if (x >= m) x -= m` on %s with m = %s is a full reduction (x + d <= 2m - 1 under the entry invariant)" % (
-                 show(S), show(m)), "[0, 2m-1]", ivtxt(iv), ok, line)
-    updates = {y for x in ("fn", "t1", "t2", "t3", "tc") for y in subterms(final[x])
-               if y[0] in ("mod", "red") and y[2][0] == "c"}
-    L.floor(rule, "modular updates (ADD_MODULO expansions)", len(updates), 5)
-    # constants
-    mfn = find_modulus(final["fn"], fld("fn"))
-    L.require(rule, F_SYNC, fname, "frame number advances modulo GSM_MAX_FN folded to 2715648 = 2048 * 26 * 51",
-              [HYPERFRAME], sorted(mfn), line=line)
+    # constants shared with the Python side
     L.unit(F_GSM)
     gmod = repo.mod("gsm_shared")
     try:
@@ -1704,19 +2145,36 @@ def r3_increment(L, repo, mods):
         raise AnalysisError("gsm_shared.GSM_HYPERFRAME / GSM_SUPERFRAME do not fold: %s" % e)
     L.require(rule, F_GSM, "<module>", "Python GSM_HYPERFRAME equals the firmware's GSM_MAX_FN (2715648)", HYPERFRAME, pyh)
     L.require(rule, F_GSM, "<module>", "Python GSM_SUPERFRAME equals 26 * 51", 1326, pys)
-    m2, m3, mc, m1 = (find_modulus(final[x], fld(x)) for x in ("t2", "t3", "tc", "t1"))
-    if mods is not None:        # None: the decomposition (R1) could not be analysed -- already recorded, nothing to compare with
-        L.require(rule, F_SYNC, fname, "moduli of the incremental update equal those of the decomposition (t2, t3, tc) and 2048 for t1",
-                  {"t2": [mods.get("t2")], "t3": [mods.get("t3")], "tc": [mods.get("tc")], "t1": [2048]},
-                  {"t2": sorted(m2), "t3": sorted(m3), "tc": sorted(mc), "t1": sorted(m1)}, line=line)
-    one = lambda s: list(s)[0] if len(s) == 1 else 0
-    L.require(rule, F_SYNC, fname, "t1 modulus * t2 modulus * t3 modulus == GSM_MAX_FN (the carry chain covers the hyperframe exactly)",
-              HYPERFRAME, one(m1) * one(m2) * one(m3), line=line)
-    if mods is not None:
-        L.require(rule, F_SYNC, fname, "t2 modulus * t3 modulus == superframe length used by the decomposition (T1 = FN div 1326)",
-                  mods.get("super"), one(m2) * one(m3), line=line)
-    L.require(rule, F_SYNC, fname, "gcd(t2 modulus, t3 modulus) == 1 (so `t2 == 0 and t3 == 0` holds exactly at multiples of 1326)",
-              1, math.gcd(one(m2), one(m3)), line=line)
+    L.floor(rule, "stores into the time's fields", stores_fit(L, rule, tu, fname, sym, tp, rng, line), 1)
+
+    def shape_moduli():
+        seen = []
+        for (S, m, iv, ok) in log:
+            if (S, m) in seen:
+                continue
+            seen.append((S, m))
+            L.ob(rule, F_SYNC, fname,
+                 "ADD_MODULO: `x += d; if (x >= m) x -= m` on %s with m = %s is a full reduction (x + d <= 2m - 1 under the entry invariant)" % (
+                     show(S), show(m)), "[0, 2m-1]", ivtxt(iv), ok, line)
+        updates = {y for x in ("fn", "t1", "t2", "t3", "tc") for y in subterms(final[x])
+                   if y[0] in ("mod", "red") and y[2][0] == "c"}
+        L.floor(rule, "modular updates (ADD_MODULO expansions)", len(updates), 5)
+        mfn = find_modulus(final["fn"], fld("fn"))
+        L.require(rule, F_SYNC, fname, "frame number advances modulo GSM_MAX_FN folded to 2715648 = 2048 * 26 * 51",
+                  [HYPERFRAME], sorted(mfn), line=line)
+        m2, m3, mc, m1 = (find_modulus(final[x], fld(x)) for x in ("t2", "t3", "tc", "t1"))
+        if mods is not None:        # None: the decomposition (R1) could not be analysed -- already recorded, nothing to compare with
+            L.require(rule, F_SYNC, fname, "moduli of the incremental update equal those of the decomposition (t2, t3, tc) and 2048 for t1",
+                      {"t2": [mods.get("t2")], "t3": [mods.get("t3")], "tc": [mods.get("tc")], "t1": [2048]},
+                      {"t2": sorted(m2), "t3": sorted(m3), "tc": sorted(mc), "t1": sorted(m1)}, line=line)
+        one = lambda s: list(s)[0] if len(s) == 1 else 0
+        L.require(rule, F_SYNC, fname, "t1 modulus * t2 modulus * t3 modulus == GSM_MAX_FN (the carry chain covers the hyperframe exactly)",
+                  HYPERFRAME, one(m1) * one(m2) * one(m3), line=line)
+        if mods is not None:
+            L.require(rule, F_SYNC, fname, "t2 modulus * t3 modulus == superframe length used by the decomposition (T1 = FN div 1326)",
+                      mods.get("super"), one(m2) * one(m3), line=line)
+        L.require(rule, F_SYNC, fname, "gcd(t2 modulus, t3 modulus) == 1 (so `t2 == 0 and t3 == 0` holds exactly at multiples of 1326)",
+                  1, math.gcd(one(m2), one(m3)), line=line)
     # decision tables
     D = V(dl)
     NF = X.mod(X.add(fld("fn"), D), C(HYPERFRAME))
@@ -1742,14 +2200,15 @@ def r3_increment(L, repo, mods):
         "tc": "tc' = (tc + 1) mod 8 exactly when the new t3 is 0 (unit step), unchanged otherwise",
         "t1": "t1' = (t1 + 1) mod 2048 exactly when the new t3 and the new t2 are both 0 (unit step), unchanged otherwise",
     }
-    for x in ("fn", "t2", "t3", "tc", "t1"):
-        pairs = table_compare(final[x], want[x])
-        L.ob(rule, F_SYNC, fname, "l1s_time_inc, decision table of time->%s over {delta == 1, new t3 == 0, new t2 == 0}: %s; "
-             "recomputed by gsm_fn2gsmtime when delta != 1" % (x, what[x]),
-             show(want[x], names),
-             show(final[x], names) if not pairs else "differs: " + "; ".join(
-                 "found %s where %s is required" % (show(a, names), show(b, names)) for a, b in pairs[:4]),
-             not pairs, line)
+    comps = ("fn", "t2", "t3", "tc", "t1")
+    key = {x: "l1s_time_inc, decision table of time->%s over {delta == 1, new t3 == 0, new t2 == 0}: %s; "
+              "recomputed by gsm_fn2gsmtime when delta != 1" % (x, what[x]) for x in comps}
+    tables = {}
+    for x in comps:
+        try:
+            tables[x] = table_compare(final[x], want[x])
+        except AnalysisError as e:
+            tables[x] = [(("v", "<%s>" % str(e)[:80]), want[x])]
     # recompute path
     effs = []
     for path, callee, args in sym.effects:
@@ -1761,10 +2220,177 @@ def r3_increment(L, repo, mods):
             pc.append(("" if pol else "not ") + show(red_to_mod(c, rng, []), names))
         pc.sort()
         effs.append({"call": callee, "args": [show(a, names) for a in args], "under": pc})
-    L.require(rule, F_SYNC, fname,
-              "non-unit delta: the time is recomputed by gsm_fn2gsmtime(time, time->fn) from the advanced frame number, exactly when delta != 1",
-              [{"call": "gsm_fn2gsmtime", "args": [tp, "FN'"], "under": ["not " + show(D1, names)]}], effs, line=line)
-    L.floor(rule, "recompute calls", len(effs), 1)
+    effs_want = [{"call": "gsm_fn2gsmtime", "args": [tp, "FN'"], "under": ["not " + show(D1, names)]}]
+    ekey = "non-unit delta: the time is recomputed by gsm_fn2gsmtime(time, time->fn) from the advanced frame number, exactly when delta != 1"
+
+    def tables_txt(x):
+        return "differs: " + "; ".join("found %s where %s is required" % (show(a, names), show(b, names)) for a, b in tables[x][:4])
+
+    def structural():
+        shape_moduli()
+        for x in comps:
+            L.ob(rule, F_SYNC, fname, key[x], show(want[x], names), show(final[x], names) if not tables[x] else tables_txt(x),
+                 not tables[x], line)
+        L.require(rule, F_SYNC, fname, ekey, effs_want, effs, line=line)
+        L.floor(rule, "recompute calls", len(effs), 1)
+    sname = "C19.R3 l1s_time_inc: moduli, decision tables of the carry chain and the recompute call in their recognised shape"
+    if L.structural(sname, structural):
+        # the carry chain in its recognised shape: closed for every frame number and every delta -- these are the
+        # check's obligations
+        L.extra.get("structural_proofs", {}).pop(sname, None)
+        if not L.extra.get("structural_proofs"):
+            L.extra.pop("structural_proofs", None)
+        structural()
+        return
+    L.extra.get("structural_proofs", {}).pop(sname, None)
+    # Another shape (an extra branch for the hyperframe wrap, a generalised step, a helper ...) decides nothing by
+    # itself.  The property is then decided on the terms themselves: under the entry invariant (the components are the
+    # decomposition of fn -- TS 45.002 4.3.3, established for gsm_fn2gsmtime by R1) every component after the call must
+    # be the decomposition of (fn + delta) mod 2715648 -- for delta == 1 folded for each of the 2715648 frame numbers
+    # (complete), for the other deltas of the property on the frame numbers around every carry point.
+    if mods is None:
+        raise AnalysisError("%s(): the update is not in the recognised carry-chain shape and the decomposition it would be folded "
+                            "against (R1) could not be analysed" % fname)
+    bad, stats = fold_increment(final, tp, dl)
+    if effs == effs_want and all(assume(final[x], D1, False) == post(x) for x in comps):
+        stats += "; the delta != 1 arm is gsm_fn2gsmtime(time, FN') itself (closed for every delta)"
+    for x in comps:
+        if x in bad:
+            L.ob(rule, F_SYNC, fname, key[x], show(want[x], names), "e.g. %s -- %s" % (
+                bad[x], tables_txt(x) if tables[x] else show(final[x], names)[:200]), False, line)
+        elif not bad:
+            L.ob(rule, F_SYNC, fname, key[x], show(want[x], names),
+                 "%s -- equal to the decomposition of the new frame number %s" % (show(final[x], names)[:240], stats), True, line)
+    if not bad:
+        L.extra.setdefault("decided_by_enumeration", []).append(
+            "l1s_time_inc: every component equals the decomposition of (fn + delta) mod 2715648 %s" % stats)
+        L.structural(sname, structural)
+
+
+def assume(t, atom, val):
+    """t with the branch atom fixed to a truth value (conditionals over it resolved)"""
+    def cond(c):
+        if c == atom:
+            return C(int(val))
+        if c[0] == "not":
+            u = cond(c[1])
+            return C(1 - u[1]) if u[0] == "c" else ("not", u)
+        if c[0] in ("and", "or"):
+            parts = [cond(x) for x in c[1:]]
+            absorbing = C(0 if c[0] == "and" else 1)
+            if absorbing in parts:
+                return absorbing
+            parts = [p for p in parts if p[0] != "c"]
+            if not parts:
+                return C(1 - absorbing[1])
+            return parts[0] if len(parts) == 1 else (c[0],) + tuple(parts)
+        return c
+
+    def leaf(x):
+        if x[0] == "ite":
+            c = cond(x[1])
+            if c[0] == "c":
+                return renorm(x[2] if c[1] else x[3], leaf)
+            return ite_(c, renorm(x[2], leaf), renorm(x[3], leaf))
+        return None
+    return renorm(t, leaf)
+
+
+STEP_DELTAS = tuple(range(2, 61)) + (1325, 1326, HYPERFRAME - 1)
+
+
+def step_fns(delta):
+    """frame numbers around every carry point of a step by delta: the first superframe, the multiples of 1326 where
+    T1 mod 64 / T1 wrap, the end of the hyperframe and the frames from which the step wraps"""
+    s = set(range(0, 1326 + 62))
+    for k in (64, 2047, 2048):
+        s |= set(range(k * 1326 - 62, k * 1326 + 62))
+    s |= set(range(HYPERFRAME - delta - 3, HYPERFRAME - delta + 3))
+    return sorted(x for x in s if 0 <= x < HYPERFRAME)
+
+
+def sweep(found, want, n=HYPERFRAME):
+    """first x in 0..n-1 on which the two terms over FN differ (one compiled loop), None when there is none"""
+    names = {V("FN"): "x"}
+    src = "def _f():\n    for x in range(%d):\n        if %s != %s:\n            return x\n    return None\n" % (
+        n, term_src(found, names), term_src(want, names))
+    g = {"__builtins__": {}, "range": range, "_at": _at, "_red": _red}
+    try:
+        exec(compile(src, "<sweep>", "exec"), g)
+        return g["_f"]()
+    except (SyntaxError, RecursionError, MemoryError, ArithmeticError, _Outside, TypeError, ValueError) as e:
+        raise AnalysisError("term cannot be folded over 0..%d: %s" % (n - 1, e))
+
+
+def fold_increment(final, tp, dl):
+    """({component: text of a differing witness}, text of what was folded).  The final value of each component of
+    l1s_time_inc as a term over (FN, delta): entry fields replaced by the decomposition of FN, the result of a
+    gsm_fn2gsmtime call by the decomposition of its argument."""
+    FN, D = V("FN"), V("DELTA")
+    dec = dict(spec_decomposition(FN), fn=FN)
+    flds = {V("%s->%s" % (tp, x)): dec[x] for x in dec}
+
+    def leaf(t):
+        if t in flds:
+            return flds[t]
+        if t == V(dl):
+            return D
+        if t[0] == "post":
+            if t[1] != "gsm_fn2gsmtime" or len(t) != 5 or t[3] != V(tp) or t[2] not in dec:
+                raise AnalysisError("l1s_time_inc(): the time is handed to %s(); its effect is outside the vocabulary" % t[1])
+            arg = renorm(t[4], leaf)
+            return arg if t[2] == "fn" else spec_decomposition(arg)[t[2]]
+        return None
+    comps = ("fn", "t1", "t2", "t3", "tc")
+    terms = {x: renorm(final[x], leaf) for x in comps}
+    for x in comps:
+        extra = sorted(v[1] for v in set(subterms(terms[x])) if v[0] == "v" and v not in (FN, D))
+        if extra or heads(terms[x]) & {"call", "post", "loop"}:
+            raise AnalysisError("l1s_time_inc(): time->%s depends on %s besides the time on entry and delta; unclassifiable" % (
+                x, extra or "a call"))
+    bad = {}
+
+    def at(delta):
+        sub = lambda t: C(delta) if t == D else None
+        newfn = mod_(X.add(FN, C(delta)), C(HYPERFRAME))
+        wdec = dict(spec_decomposition(newfn), fn=newfn)
+        return {x: renorm(terms[x], sub) for x in comps}, wdec
+
+    def witness(x, delta, fn, f, w):
+        a, b = evalnum_src(f, fn), evalnum_src(w, fn)
+        bad.setdefault(x, "fn = %d (T1 = %d, T2 = %d, T3 = %d, TC = %d), delta = %d: time->%s becomes %s, the decomposition of "
+                          "the new frame number %d gives %s" % (fn, fn // 1326, fn % 26, fn % 51, (fn // 51) % 8, delta, x, a,
+                                                                (fn + delta) % HYPERFRAME, b))
+    # boundary witnesses first (cheap; every seeded carry fault dies here)
+    k = 0
+    for delta in (1,) + STEP_DELTAS:
+        f, w = at(delta)
+        g = term_fn(("tuple",) + tuple(("tuple", f[x], w[x]) for x in comps), {FN: "x"}, ["x"])
+        for fn in step_fns(delta):
+            k += 1
+            try:
+                vals = g(fn)
+            except (ArithmeticError, _Outside, TypeError, ValueError) as e:
+                raise AnalysisError("l1s_time_inc(): the update cannot be folded for fn = %d, delta = %d: %s" % (fn, delta, e))
+            for x, (a, b) in zip(comps, vals):
+                if a != b and x not in bad:
+                    witness(x, delta, fn, f[x], w[x])
+    if bad:
+        return bad, ""
+    # the unit step: complete
+    f, w = at(1)
+    first = sweep(("tuple",) + tuple(f[x] for x in comps), ("tuple",) + tuple(w[x] for x in comps))
+    if first is not None:
+        for x in comps:
+            if evalnum_src(f[x], first) != evalnum_src(w[x], first):
+                witness(x, 1, first, f[x], w[x])
+        return bad, ""
+    return bad, ("for delta == 1 and each of the %d frame numbers (complete) and for delta in 2..60, 1325, 1326, 2715647 on "
+                 "%d frame numbers around the carry points" % (HYPERFRAME, k))
+
+
+def evalnum_src(t, fn):
+    return term_fn(t, {V("FN"): "x"}, ["x"])(fn)
 
 
 def _utils_tu(L):
